@@ -16,12 +16,18 @@
         abort();                      \
     } while (0)
 
+template <class T> inline T vt_poison() { return T(); }
+template <> inline double vt_poison<double>() { return std::nan(""); }
+template <> inline float vt_poison<float>() { return std::nanf(""); }
+
 namespace boost { namespace numeric { namespace ublas {
 template <class T> class vector {
     std::vector<T> d_;
    public:
     vector() {}
-    explicit vector(size_t n) : d_(n) {}
+    // uBLAS leaves the storage of a freshly sized container uninitialised: poison it, so that reading an element that was
+    // never assigned is visible (NaN) instead of silently being 0.0
+    explicit vector(size_t n) : d_(n, vt_poison<T>()) {}
     vector(size_t n, T v) : d_(n, v) {}
     size_t size() const { return d_.size(); }
     void resize(size_t n) { d_.resize(n); }
@@ -40,7 +46,7 @@ template <class T> class matrix {
     size_t r_, c_;
    public:
     matrix() : r_(0), c_(0) {}
-    matrix(size_t r, size_t c) : d_(r * c), r_(r), c_(c) {}
+    matrix(size_t r, size_t c) : d_(r * c, vt_poison<T>()), r_(r), c_(c) {}
     matrix &operator=(const zero_matrix<T> &z) { r_ = z.r_; c_ = z.c_; d_.assign(r_ * c_, T()); return *this; }
     size_t size1() const { return r_; }
     size_t size2() const { return c_; }
